@@ -12,8 +12,9 @@
 EXTENDS Directives, Json, IOUtils
 
 Rec == ndJsonDeserialize(IOEnv.TRACE)
-VARIABLES l, bad, tvse, mode
-tvars == <<dvars, l, bad, tvse, mode>>
+VARIABLES l, bad, tvse, mode, wrap, wx      \* wrap: "" | "or" | "and" with LevelFilter wx (FilterExt combinators around the EnvFilter)
+tvars == <<dvars, l, bad, tvse, mode, wrap, wx>>
+W(b, lvl) == CASE wrap = "or" -> b \/ lvl <= wx [] wrap = "and" -> b /\ lvl <= wx [] OTHER -> b
 
 AllStatic(D) == \A i \in DOMAIN D : IsStatic(D[i])
 TGTS == <<"a", "a::b", "ab", "b">>
@@ -34,10 +35,10 @@ TvseCase(r) == r.t_ok /\ ~AllStatic(r.dirs)                   \* Targets accepte
 
 OpOk(r) ==
   CASE r.op = "span"  -> /\ spans[r.h].st = "none"
-                         /\ r.reply \in SpanAllowed([lvl |-> r.lvl, tgt |-> r.tgt, name |-> r.name], r.k)
-    [] r.op = "event" -> r.reply = EventEnabled(EventMeta(r.lvl, r.tgt, r.k))
+                         /\ r.reply \in {W(b, r.lvl) : b \in SpanAllowed([lvl |-> r.lvl, tgt |-> r.tgt, name |-> r.name], r.k)}
+    [] r.op = "event" -> r.reply = W(EventEnabled(EventMeta(r.lvl, r.tgt, r.k)), r.lvl)
     [] r.op = "all"   -> \A lvl \in 1..5, ti \in 1..4, kb \in BOOLEAN :
-                            r.reply[AllIdx(lvl, ti, kb)] = EventEnabled(EventMeta(lvl, TGTS[ti], kb))
+                            r.reply[AllIdx(lvl, ti, kb)] = W(EventEnabled(EventMeta(lvl, TGTS[ti], kb)), lvl)
     [] OTHER -> TRUE
 
 Step(r) ==
@@ -51,26 +52,27 @@ Step(r) ==
     [] r.op = "close"  -> Close(r.h)
     [] OTHER -> UNCHANGED dvars
 
-TraceInit == /\ l = 0 /\ bad = << >> /\ tvse = << >> /\ mode = "idle"
+TraceInit == /\ l = 0 /\ bad = << >> /\ tvse = << >> /\ mode = "idle" /\ wrap = "" /\ wx = 0
              /\ kind = "env" /\ dirs = << >> /\ spans = [h \in Handles |-> NoSpan] /\ entered = << >> /\ scope = << >>
 TraceNext ==
   /\ l < Len(Rec)
   /\ l' = l + 1
   /\ LET r == Rec[l + 1] IN
-       CASE r.ev = "reset" -> UNCHANGED <<dvars, bad, tvse, mode>>
+       CASE r.ev = "reset" -> UNCHANGED <<dvars, bad, tvse, mode, wrap, wx>>
          [] r.ev = "case"  -> /\ bad' = (IF CaseOk(r) THEN bad ELSE Append(bad, l + 1))
                               /\ tvse' = tvse
-                              /\ UNCHANGED <<dvars, mode>>
+                              /\ UNCHANGED <<dvars, mode, wrap, wx>>
          [] r.ev = "start" -> /\ dirs' = r.dirs
                               \* a Targets that accepted span syntax is judged as the EnvFilter it claims to agree with
                               /\ kind' = (IF r.kind = "targets" /\ r.tv THEN "env" ELSE r.kind)
                               /\ mode' = (IF r.kind = "targets" /\ r.tv THEN "tvse" ELSE "normal")
                               /\ spans' = [h \in Handles |-> NoSpan] /\ entered' = << >> /\ scope' = << >>
+                              /\ wrap' = r.wrap /\ wx' = r.x
                               /\ UNCHANGED <<bad, tvse>>
          [] r.ev = "op"    -> /\ bad' = (IF mode = "tvse" \/ OpOk(r) THEN bad ELSE Append(bad, l + 1))
                               /\ tvse' = (IF mode = "tvse" /\ ~OpOk(r) THEN Append(tvse, l + 1) ELSE tvse)
                               /\ Step(r)
-                              /\ mode' = mode
+                              /\ mode' = mode /\ UNCHANGED <<wrap, wx>>
 TraceSpec == TraceInit /\ [][TraceNext]_tvars
 Report == l = Len(Rec) => PrintT("@@BAD " \o ToJson(bad)) /\ PrintT("@@TVSE " \o ToJson(tvse))
 Consumed == IF TLCGet("stats").diameter = Len(Rec) + 1 THEN TRUE
